@@ -352,7 +352,9 @@ func (c *Ctx) ruleInputImmutable(rule string, pkgPrefix []string, min int) {
 					continue
 				}
 				for _, es := range e.Escapes(fn, i) {
-					if es.Field != nil {
+					// only memory typed as bytes can be (part of) the input buffer: a []T field whose elements
+					// merely hold such slices has its own backing array
+					if es.Field != nil && canAliasBytes(es.Field.Type()) {
 						retained[es.Field] = es.Base
 					}
 				}
@@ -373,6 +375,26 @@ func (c *Ctx) ruleInputImmutable(rule string, pkgPrefix []string, min int) {
 	}
 	// retained sub-slices
 	c.retainedFields(rule+".retained", retained)
+}
+
+// canAliasBytes: a value of this type can point into a []byte's backing array.
+func canAliasBytes(t types.Type) bool {
+	switch u := t.Underlying().(type) {
+	case *types.Slice:
+		b, ok := u.Elem().Underlying().(*types.Basic)
+		return ok && (b.Kind() == types.Uint8 || b.Kind() == types.Int8)
+	case *types.Pointer:
+		switch e := u.Elem().Underlying().(type) {
+		case *types.Basic:
+			return e.Kind() == types.Uint8 || e.Kind() == types.Int8
+		case *types.Array:
+			b, ok := e.Elem().Underlying().(*types.Basic)
+			return ok && (b.Kind() == types.Uint8 || b.Kind() == types.Int8)
+		}
+	case *types.Interface:
+		return true
+	}
+	return false
 }
 
 func (c *Ctx) retainedFields(rule string, retained map[*types.Var]types.Type) {
